@@ -205,10 +205,17 @@ pub fn bfs(sc: &Scenario, oracles: &[&dyn Oracle], lim: &Limits) -> (Stats, Vec<
             }
         }
         let check_new = level <= sc.depth;
+        let skipped = std::sync::atomic::AtomicBool::new(false);
         let results: Vec<(Vec<Expansion>, u64)> = par_map(frontier.len(), |i| {
             let hist = &frontier[i];
             let mut out = Vec::new();
             let mut replays = 1u64;
+            if let Some(d) = lim.deadline {
+                if Instant::now() > d {
+                    skipped.store(true, std::sync::atomic::Ordering::Relaxed);
+                    return (out, 0);
+                }
+            }
             let w = sc.replay(hist);
             let ops: Vec<Op> = sc
                 .alphabet
@@ -273,6 +280,11 @@ pub fn bfs(sc: &Scenario, oracles: &[&dyn Oracle], lim: &Limits) -> (Stats, Vec<
         stats.transitions += transitions;
         stats.levels.push((level, new_states, transitions));
         stats.max_depth = level;
+        if skipped.load(std::sync::atomic::Ordering::Relaxed) {
+            stats.capped = Some(format!("wall-clock cap hit inside level {} (level incomplete; complete below it)", level));
+            stats.max_depth = level - 1;
+            break;
+        }
         // new-state probes (run on the representatives)
         if !next.is_empty() && oracles.iter().any(|_| true) {
             let probe: Vec<Vec<Violation>> = par_map(next.len(), |i| {
